@@ -210,7 +210,30 @@ func runC09(w *World) {
 		}
 	})
 	shrinkDone := func() bool {
-		return shr.done() && !n.inst.srv.shrinking && n.inst.atPoint == "" && len(n.inst.lock.parked) == 0
+		if !shr.done() || n.inst.srv.shrinking || n.inst.atPoint != "" {
+			return false
+		}
+		started := false
+		for _, g := range n.inst.grants {
+			if g.role == "shrink" {
+				started = true
+				break
+			}
+		}
+		if !started {
+			return false
+		}
+		for _, r := range n.inst.lock.pending {
+			if r.role == "shrink" {
+				return false
+			}
+		}
+		for _, r := range n.inst.lock.parked {
+			if r.role == "shrink" || strings.HasPrefix(r.role, "point:") {
+				return false
+			}
+		}
+		return true
 	}
 	allDone := func() bool {
 		for _, a := range writers {
@@ -222,6 +245,7 @@ func runC09(w *World) {
 	}
 	// collections named by RENAME/RENAMENX entries appended while a rewrite was in progress
 	renamed := map[string]bool{}
+	jdeled := map[string]bool{} // collections in which a JDEL was applied while a rewrite was in progress
 	prevOnEntry := hc.lm.onEntry
 	hc.lm.onEntry = func(e *lmEntry, before, after *Model) {
 		prevOnEntry(e, before, after)
@@ -229,6 +253,9 @@ func runC09(w *World) {
 			renamed[e.args[1]] = true
 			renamed[e.args[2]] = true
 			w.stat("probe.rename_during_rewrite", 1)
+		}
+		if lower(e.args[0]) == "jdel" && n.inst.srv.shrinking && len(e.args) == 4 {
+			jdeled[e.args[1]] = true
 		}
 	}
 	kAck := func() int {
@@ -257,20 +284,25 @@ func runC09(w *World) {
 		// the shrink log against a snapshot in which its source may be missing. A mismatch is
 		// attributed to it only when every differing collection was named by such a rename.
 		class := "C09/recovered"
-		if len(renamed) > 0 {
+		if len(renamed) > 0 || len(jdeled) > 0 {
 			dk, hd := diffKeys(hc.lm.states[hi], d)
-			all := !hd
+			allRen, allJdel := !hd, !hd
 			for _, k := range dk {
 				if !renamed[k] {
-					all = false
+					allRen = false
+				}
+				if !jdeled[k] {
+					allJdel = false
 				}
 			}
-			if all {
+			if allRen && len(renamed) > 0 {
 				class = "C09/recovered-rename"
+			} else if allJdel && len(jdeled) > 0 {
+				class = "C09/recovered-jdel"
 			}
 		}
-		w.violate(class, "%s: the recovered dataset is not the model after any log prefix in [%d,%d] (every acknowledged write is within the first %d entries); against the full log: %v; renames during the rewrite touched %v",
-			what, lo, hi, lo, firstErr, sortedBoolKeys(renamed))
+		w.violate(class, "%s: the recovered dataset is not the model after any log prefix in [%d,%d] (every acknowledged write is within the first %d entries); against the full log: %v; renames during the rewrite touched %v; JDEL during the rewrite touched %v",
+			what, lo, hi, lo, firstErr, sortedBoolKeys(renamed), sortedBoolKeys(jdeled))
 		return false
 	}
 	restart := func(what string, lo, hi int) (*Inst, bool) {
@@ -327,6 +359,8 @@ func runC09(w *World) {
 		clean := w.knob("clean", 2) == 1
 		if clean {
 			n.stopClean()
+			// the sweeper may have logged expirations while the server was shutting down
+			hi = len(hc.lm.entries)
 			lo = hi
 		} else {
 			n.crash()
